@@ -55,7 +55,8 @@ type freeUser struct {
 	err       error
 	a, b      int64 // logical time of "Realize returned" and "about to Close"
 	cancelled atomic.Bool
-	mode      int // 0: Realize, Close; 1: Realize twice on one proxy, Close; 2: Close twice; 3: Close, Realize again, Close
+	old       bool // uses the old interface Realize([]*claircore.Layer), its list repeats some digests
+	mode      int  // 0: Realize, Close; 1: Realize twice on one proxy, Close; 2: Close twice; 3: Close, Realize again, Close
 }
 
 // failU records an unexplained failure and stops the collector (see noGC).
@@ -189,6 +190,15 @@ func freeRun(r *hx.Run, rnd *hx.Rand, idx int, maxUsers int) {
 		if rnd.Chance(1, 3) {
 			u.mode = 1 + rnd.Intn(3)
 		}
+		if rnd.Chance(1, 4) {
+			// the old interface, with the same digest at several positions of the list (manifests
+			// repeat the empty layer)
+			u.old = true
+			for j := 1 + rnd.Intn(2); j > 0; j-- {
+				pos, val := rnd.Intn(len(u.layers)+1), u.layers[rnd.Intn(len(u.layers))]
+				u.layers = append(u.layers[:pos], append([]int{val}, u.layers[pos:]...)...)
+			}
+		}
 		users[i] = u
 	}
 	label := fmt.Sprintf("free-run#%d users=%d layers=%d gomaxprocs=%d", idx, nu, nl, runtime.GOMAXPROCS(0))
@@ -219,7 +229,31 @@ func freeRun(r *hx.Run, rnd *hx.Rand, idx int, maxUsers int) {
 			}
 			p := arena.Realizer(ctx).(*libindex.FetchProxy)
 			var ls []claircore.Layer
-			out := hx.Guard(func() string { ls, u.err = p.RealizeDescriptions(ctx, descs); return "" })
+			var out string
+			if u.old {
+				lp := oldLayers(srv, layers, u.layers)
+				out = hx.Guard(func() string { u.err = p.Realize(ctx, lp); return "" })
+				if out != "panic" && u.err == nil {
+					r.Count("free:contract=old-interface-with-repeated-digests")
+					// per slot: the Layer handed back is initialised and is the layer of that slot
+					ls = make([]claircore.Layer, len(lp))
+					for i, k := range u.layers {
+						if msg := slotCheck(lp[i], layers[k]); msg != "" {
+							failU(r, fmt.Sprintf("%s user=%d Realize(layers=%v) slot=%d: %s", label, u.id, u.layers, i, msg))
+							u.err = fmt.Errorf("slot check failed")
+						}
+					}
+					if u.err != nil {
+						hx.Guard(func() string { p.Close(); return "" })
+						return
+					}
+					for i := range lp {
+						ls[i] = *lp[i]
+					}
+				}
+			} else {
+				out = hx.Guard(func() string { ls, u.err = p.RealizeDescriptions(ctx, descs); return "" })
+			}
 			if out == "panic" {
 				u.err = fmt.Errorf("panic")
 				failU(r, label+" RealizeDescriptions-panicked user="+strconv.Itoa(u.id))
